@@ -214,19 +214,19 @@ func cmdCheck(args []string) int {
 				genErrors = append(genErrors, "unknown lemma "+ln)
 				continue
 			}
-			text, err := sp.theoryText(append([]string{"base"}, lm.Uses...))
+			text, err := sp.theoryText(lm.Uses)
 			if err != nil {
 				genErrors = append(genErrors, "lemma "+ln+": "+err.Error())
 				continue
 			}
-			o := &Obligation{Name: "lemma/" + ln, Kind: "lemma", Func: "lemma/" + ln, Expect: "unsat", Raw: "; lemma " + ln + "\n(set-logic ALL)\n" + text + lm.Text + "(check-sat)\n", Info: "lemma " + ln}
+			o := &Obligation{Name: "lemma/" + ln, Kind: "lemma", Func: "lemma/" + ln, Expect: "unsat", Raw: "; lemma " + ln + "\n(set-logic ALL)\n" + strings.Replace(text, ";;STRDECLS;;\n", (&VC{sp: sp, strLits: map[string]string{}}).strDecls(), 1) + lm.Text + "(check-sat)\n", Info: "lemma " + ln}
 			r := &Result{Obl: o}
 			n++
 			r.File = filepath.Join(work, fmt.Sprintf("%04d_%s.smt2", n, sanitize(o.Name)))
 			os.WriteFile(r.File, []byte(o.Raw), 0o644)
 			results = append(results, r)
 			// canary: the lemma's hypotheses without the negated goal must not be unsat
-			co := &Obligation{Name: "lemma/" + ln + "/vacuity", Kind: "vacuity", Func: "lemma/" + ln, Expect: "sat", Raw: "; lemma canary " + ln + "\n(set-logic ALL)\n" + text + stripLastAssert(lm.Text) + "(check-sat)\n"}
+			co := &Obligation{Name: "lemma/" + ln + "/vacuity", Kind: "vacuity", Func: "lemma/" + ln, Expect: "sat", Raw: "; lemma canary " + ln + "\n(set-logic ALL)\n" + strings.Replace(text, ";;STRDECLS;;\n", (&VC{sp: sp, strLits: map[string]string{}}).strDecls(), 1) + stripLastAssert(lm.Text) + "(check-sat)\n"}
 			cr := &Result{Obl: co}
 			n++
 			cr.File = filepath.Join(work, fmt.Sprintf("%04d_%s.smt2", n, sanitize(co.Name)))
